@@ -243,6 +243,21 @@ fn std_u128_from_le_bytes() {
     kani::assume(n < 16);
     assert!(((v >> (8 * n)) & 0xff) as u8 == b[n]);
 }
+/// prelude.rs `<[T]>::to_vec` at the crate's one instantiation T = u8 (bounded: slices of up to 6 bytes, any window of an
+/// 6-byte array): same length, same bytes
+#[kani::proof]
+#[kani::unwind(8)]
+fn std_to_vec_u8() {
+    let a: [u8; 6] = kani::any();
+    let lo: usize = kani::any(); let hi: usize = kani::any();
+    kani::assume(lo <= hi && hi <= 6);
+    let s: &[u8] = &a[lo..hi];
+    let v = s.to_vec();
+    assert!(v.len() == s.len());
+    let n: usize = kani::any();
+    kani::assume(n < s.len());
+    assert!(v[n] == s[n]);
+}
 /// prelude.rs FixedBitSet model (bounded: up to 40 bits, three symbolic operations): len/grow/set/put/contains/clear agree
 /// with a reference bit vector
 #[kani::proof]
